@@ -45,17 +45,26 @@ func isAllowedPossibleValue(opt *Option, value interface{}) error {
 		return nil
 	}
 
-	for _, val := range opt.PossibleValues {
-		compareAgainst := val.Value
-		valueType := reflect.TypeOf(value)
+	// A nil value (e.g. a JSON null) is never a possible value, and values of
+	// non-comparable types (e.g. []byte) can only be checked with
+	// reflect.DeepEqual: converting to or comparing them would panic.
+	valueType := reflect.TypeOf(value)
+	if valueType == nil {
+		return errors.New("value is not allowed")
+	}
 
-		// loading int's from the configuration JSON does not preserve the correct type
-		// as we get float64 instead. Make sure to convert them before.
-		if reflect.TypeOf(val.Value).ConvertibleTo(valueType) {
-			compareAgainst = reflect.ValueOf(val.Value).Convert(valueType).Interface()
-		}
-		if compareAgainst == value {
-			return nil
+	for _, val := range opt.PossibleValues {
+		if valueType.Comparable() {
+			compareAgainst := val.Value
+
+			// loading int's from the configuration JSON does not preserve the correct type
+			// as we get float64 instead. Make sure to convert them before.
+			if reflect.TypeOf(val.Value).ConvertibleTo(valueType) {
+				compareAgainst = reflect.ValueOf(val.Value).Convert(valueType).Interface()
+			}
+			if compareAgainst == value {
+				return nil
+			}
 		}
 
 		if reflect.DeepEqual(val.Value, value) {
